@@ -512,6 +512,81 @@ theorem callback_of_update (c : Cfg) (s s' : Store) (tx : Tx) (d : NDoc) (cur : 
   rw [hf]; simp only
   exact storeAdd_of_add c s s' tx d ha
 
+/-! ### whole histories -/
+
+theorem addDid_events (cfg : C10.Cfg) (st st' : DidState) (e : Event) (h : addDid cfg st e = .ok (some st')) :
+    ∀ x, x ∈ st'.events → x = e ∨ x ∈ st.events := by
+  intro x hx
+  unfold addDid at h
+  split at h
+  · cases h
+  · simp only at h
+    split at h
+    · cases h
+    · cases h
+    · split at h
+      · cases h
+      · rename_i last _
+        simp only [Res.ok.injEq, Option.some.injEq] at h
+        subst h
+        simp only at hx
+        have := (insert_perm e st.events).mem_iff.mp hx
+        simpa using this
+
+theorem step_events (c : Cfg) (s : Store) (tx : Tx) (pd : Option NDoc) (id : String) (e : Event)
+    (h : e ∈ ((step c s tx pd).1.get id).events) :
+    e ∈ (s.get id).events ∨
+      ((step c s tx pd).2 = "ok" ∧ ∃ d, pd = some d ∧ e = eventOf tx d ∧ d.id = id) := by
+  unfold step at h ⊢
+  split at h
+  · rename_i s' hs'
+    simp only at h ⊢
+    obtain ⟨_, hcb⟩ := deliver_ok_inv c s s' tx pd hs'
+    obtain ⟨_, d, hpd, _, hcase⟩ := callback_ok_inv c s s' tx pd hcb
+    have hadd : add c.store s (eventOf tx d) = .ok s' := by
+      rcases hcase with ⟨k, _, hc⟩ | ⟨_, hup⟩
+      · exact (handleCreate_ok c s s' tx k d hc).2
+      · obtain ⟨_, _, _, _, _, _, _, hadd⟩ := handleUpdate_ok_inv c s s' tx d hup
+        exact hadd
+    obtain ⟨hother, hown⟩ := add_get c.store s s' (eventOf tx d) hadd
+    by_cases hid : id = (eventOf tx d).doc.id
+    · subst hid
+      rcases hown with ⟨_, rfl⟩ | hsome
+      · exact Or.inl h
+      · rcases addDid_events c.store _ _ _ hsome e h with rfl | hold
+        · exact Or.inr ⟨trivial, d, hpd, rfl, rfl⟩
+        · exact Or.inl hold
+    · rw [hother id hid] at h
+      exact Or.inl h
+  · exact Or.inl h
+  · exact Or.inl h
+
+/-- deliver a whole history -/
+def runHist (c : Cfg) : Store → List (Tx × Option NDoc) → Store
+  | s, [] => s
+  | s, p :: ps => runHist c (step c s p.1 p.2).1 ps
+
+theorem runHist_events (c : Cfg) :
+    ∀ (l : List (Tx × Option NDoc)) (s : Store) (id : String) (e : Event),
+      e ∈ ((runHist c s l).get id).events →
+      e ∈ (s.get id).events ∨
+      ∃ pre tx d post, l = pre ++ (tx, some d) :: post ∧ e = eventOf tx d ∧ d.id = id ∧
+        (step c (runHist c s pre) tx (some d)).2 = "ok" := by
+  intro l
+  induction l with
+  | nil => intro s id e h; exact Or.inl h
+  | cons p ps ih =>
+    intro s id e h
+    obtain ⟨tx, pd⟩ := p
+    simp only [runHist] at h
+    rcases ih _ id e h with h1 | ⟨pre, tx', d, post, hl, he, hid, hok⟩
+    · rcases step_events c s tx pd id e h1 with h2 | ⟨hok, d, hpd, he, hid⟩
+      · exact Or.inl h2
+      · subst hpd
+        exact Or.inr ⟨[], tx, d, ps, rfl, he, hid, hok⟩
+    · refine Or.inr ⟨(tx, pd) :: pre, tx', d, post, by rw [hl]; rfl, he, hid, ?_⟩
+      simpa [runHist] using hok
+
 /-! ### store-level resolution without AllowDeactivated -/
 
 theorem matchesMeta_not_deactivated (m : Meta) (rm : Option ResolveMeta) (ha : allowOf rm = false)
